@@ -177,3 +177,53 @@ class Run:
         if inc:
             return 2
         return 0
+
+
+class SubsetAlias:
+    """Run another property's rule module as a premise: instances of the rules named in `mapping` are recorded under this
+    property's rule id (key prefixed), everything else the module reports is dropped."""
+
+    def __init__(self, R, mapping, prefix=""):
+        self.R, self.mapping, self.prefix = R, mapping, prefix
+
+    def _m(self, rule):
+        return self.mapping.get(rule)
+
+    def rule(self, rule, text):
+        if self._m(rule):
+            self.R.rule(self._m(rule), text) if self._m(rule) not in getattr(self.R, "rules", {}) else None
+
+    def check(self, rule, key, ok, *a, **k):
+        if self._m(rule):
+            return self.R.check(self._m(rule), self.prefix + key, ok, *a, **k)
+        return bool(ok)
+
+    def violation(self, rule, key, *a, **k):
+        if self._m(rule):
+            return self.R.violation(self._m(rule), self.prefix + key, *a, **k)
+
+    def holds(self, rule, key, *a, **k):
+        if self._m(rule):
+            return self.R.holds(self._m(rule), self.prefix + key, *a, **k)
+
+    def inconclusive(self, rule, key, *a, **k):
+        if self._m(rule):
+            return self.R.inconclusive(self._m(rule), self.prefix + key, *a, **k)
+
+    def floor(self, rule, what, n, minimum):
+        if self._m(rule):
+            return self.R.floor(self._m(rule), what, n, minimum)
+        return n >= minimum
+
+    def trust(self, *a, **k):
+        pass
+
+    def assume(self, *a, **k):
+        pass
+
+    def count(self, *a, **k):
+        pass
+
+    @property
+    def instances(self):
+        return self.R.instances
